@@ -114,6 +114,7 @@ def run(ctx):
     prog = ctx.progs["rumqttd"]
     ctx.guarded("R-C01-waiters", waiters, ctx, prog)
     ctx.guarded("R-C01-advance", advance, ctx, prog)
+    ctx.guarded("R-C01-advance", parked_only_when_done, ctx, prog)
     ctx.guarded("R-C01-wake", wake, ctx, prog)
     ctx.guarded("R-C01-conserve", conserve, ctx, prog)
     ctx.guarded("R-C01-tryready", tryready, ctx, prog)
@@ -176,6 +177,67 @@ def unsubscribe(ctx, prog):
             ctx.ok(rule, body.id, "Success only after removal from the " + what, site=body.loc(hits[0][1].get("sp")))
         else:
             ctx.violation(rule, body.id, "removal with a foreign id: " + what, "the removal from the %s is not addressed with the handler's own connection id" % what, site=body.loc(hits[0][1].get("sp")))
+
+
+def parked_only_when_done(ctx, prog):
+    """A request is parked (ConsumeStatus::FilterCaughtup -> DataLog::park, woken only by the next append) although the
+    log read did NOT report Done when every entry of the batch was filtered out (expired): what lies behind the batch is
+    stranded until somebody publishes again — and a shared group, whose cursor is written back only after a forward,
+    re-reads the same expired entry for ever.  FilterCaughtup may be returned only on the read's Done edge (or when the
+    read itself failed)."""
+    rule = "R-C01-advance"
+    f = prog.one(r"^router::routing::forward_device_data$")
+    psw = discr_switches(f, r"segments::Position$")
+    if len(psw) != 1:
+        raise AnchorMissing("forward_device_data: match on Position not found")
+    # the tuple local built in both arms, whose last element is the caught-up flag
+    tup = None
+    for v in ("Next", "Done"):
+        tgt = variant_target(psw[0], v)
+        for b in reachable(f, (tgt,)):
+            for st in f.blocks[b]["s"]:
+                if "lhs" in st and st["rv"]["k"] == "agg" and st["rv"].get("ak") == "tuple" and len(st["rv"]["ops"]) == 3 and (op_const(st["rv"]["ops"][2]) or {}).get("v") in (0, 1):
+                    tup = st["lhs"]["l"]
+    if tup is None:
+        raise AnchorMissing("forward_device_data: (start, end, caughtup) tuple not found")
+    flags = set()
+    for blk in f.blocks:
+        for st in blk["s"]:
+            if "lhs" in st and not st["lhs"].get("p") and st["rv"]["k"] == "use":
+                pl = op_place(st["rv"]["a"])
+                if pl is not None and pl["l"] == tup and [p_.get("f") for p_ in (pl.get("p") or []) if isinstance(p_, dict)] == ["2"]:
+                    flags.add(st["lhs"]["l"])
+    changed = True
+    while changed:
+        changed = False
+        for blk in f.blocks:
+            for st in blk["s"]:
+                if "lhs" in st and not st["lhs"].get("p") and st["rv"]["k"] == "use" and op_local(st["rv"]["a"]) in flags and not (op_place(st["rv"]["a"]) or {}).get("p") and st["lhs"]["l"] not in flags:
+                    flags.add(st["lhs"]["l"]); changed = True
+    done_edges = []
+    for bi, blk in enumerate(f.blocks):
+        t = blk["t"]
+        if t["k"] == "switch" and not blk.get("cleanup") and op_local(t["on"]) in flags:
+            done_edges.append(t["otherwise"])
+    reads = [bb for bb, t in f.calls() if callee_path(t).endswith("DataLog::native_readv") and not f.is_cleanup(bb)]
+    err_t = None
+    for s_ in discr_switches(f, r"result::Result$"):
+        if reads and s_[4] and s_[4]["l"] == f.blocks[reads[0]]["t"]["dest"]["l"]:
+            err_t = variant_target(s_, "Err")
+    n = 0
+    for bi, blk in enumerate(f.blocks):
+        for st in blk["s"]:
+            if "lhs" in st and st["rv"]["k"] == "agg" and st["rv"].get("adt", "").endswith("ConsumeStatus") and st["rv"].get("var") == "FilterCaughtup":
+                n += 1
+                if err_t is not None and dominates(f, err_t, bi):
+                    ctx.ok(rule, f.id, "FilterCaughtup on the failed-read edge", site=f.loc(st.get("sp")), trivial=True)
+                elif any(dominates(f, e, bi) for e in done_edges):
+                    ctx.ok(rule, f.id, "FilterCaughtup only behind the read's Done edge", site=f.loc(st.get("sp")))
+                else:
+                    ctx.violation(rule, f.id, "parked although the read was not Done",
+                                  "forward_device_data returns FilterCaughtup (the request is parked until the next append) on a path where the log read did not report Done: when every entry of a batch is filtered out as expired, the entries behind it are stranded, and a round-robin shared group re-reads the same expired entry for ever",
+                                  site=f.loc(st.get("sp")))
+    ctx.floor(rule, "FilterCaughtup returns in forward_device_data", n, 3)
 
 
 def unsubscribe_keyspace(ctx, prog):
